@@ -74,7 +74,7 @@ pub fn replay(case: &Value) -> Vec<Violation> {
         "c09" => c09::replay(case),
         "c03" => c03::replay(case),
         "c10" | "c10_holder" | "c10_holder_new" | "c10_issue" | "c10_reused_pair" => c10::replay(case),
-        "c07" | "c07_block" => c07::replay(case),
+        "c07" | "c07_block" | "c07_api" => c07::replay(case),
         "c14_schedule" | "c14_history" | "c14_global" | "c14_names" => c14::replay(case),
         "c11_issuer" | "c11_holder" => c11::replay(case),
         "c04" | "c04_text" => c04::replay(case),
